@@ -127,6 +127,24 @@ def r161(ctx) -> None:
                        'seen until ANOTHER change happens (A SELECT; B '
                        'APPEND; A IDLE -> nothing is pushed)')
                 continue
+            # the predicate compares the position of the LAST MERGE: it
+            # must not come after that position has been overwritten
+            overw = cfg.find(lambda x: x.kind == 'stmt' and any(
+                isinstance(tg, ast.Attribute) and tg.attr == 'mod_sequence'
+                and not is_name(tg.value, 'self')
+                for tg in targets_of(x.stmt)))
+            stale = [t.lineno for t in tests
+                     if any(cfg.dominated_by(t, [o]) for o in overw)]
+            if stale:
+                R.fail(f, w, key + ' is guarded by a freshness predicate',
+                       f'the predicate at line(s) {stale} runs AFTER '
+                       f'selected.mod_sequence was overwritten with the '
+                       f'log\'s highest value: it compares the log with '
+                       f'itself, is always true, and the idler always '
+                       f'parks — a change that landed while it was writing '
+                       f'the previous notification is only delivered on a '
+                       f'LATER change or DONE')
+                continue
             ok_order = all(cfg.dominated_by(t, arms) for t in tests) \
                 if arms else False
             bad = []
